@@ -859,7 +859,19 @@ fn assignable_call<'t>(ctx: Context<'t>, callee: Assignable) -> ParseResult<'t, 
                 args.push(expr);
 
                 ctx = match ctx.tokens_lookahead::<2>() {
-                    [T::Newline, T::Comma] => ctx.skip(2),
+                    [T::Newline, _] => {
+                        // A line that starts with a comma continues the arguments, blank
+                        // lines and comments before it don't matter.
+                        let mut next = ctx;
+                        while matches!(next.token(), T::Newline) {
+                            next = next.skip(1);
+                        }
+                        if matches!(next.token(), T::Comma) {
+                            next.skip(1)
+                        } else {
+                            ctx
+                        }
+                    }
                     [T::Comma, T::Newline] => {
                         // The arguments continue on the next line that isn't blank.
                         let mut ctx = ctx.skip(2);
